@@ -12,7 +12,13 @@
 (* (harness bin tcplegal) check that the TCP transport *guarantees* it.    *)
 (*                                                                         *)
 (* Caller obligations (assumed, flagged with the prefix "caller:"):        *)
-(*   connection ids passed to dial()/open() are fresh.                     *)
+(*   A1 connection ids passed to dial()/open() are fresh.                  *)
+(* Not needed for G1-G7 but for the caller's own resources (the trait has  *)
+(* no call to abandon such a connection; the transport keeps the socket    *)
+(* until the caller decides): A2 every ConnectionOpened is answered by     *)
+(* negotiate(), A3 every PendingInboundConnection by accept_pending() or   *)
+(* reject_pending(), A4 every ConnectionEstablished by accept()/reject().  *)
+(* The monitor does not demand A2-A4; rule L accounts for undecided ids.   *)
 (* Transport guarantees, per connection id:                                *)
 (*  G1 dial(cid,a) that returned Ok is concluded by exactly one of         *)
 (*     ConnectionEstablished{Dialer,cid,peer = peer named in a} or         *)
